@@ -13,7 +13,10 @@ import jax
 from jax import numpy as jnp
 from jax import random as jr
 
+import numpy as np
+
 from lerax.callback import AbstractCallback, AbstractCallbackState, AbstractCallbackStepState
+from lerax.callback.logging.backend import AbstractLoggingBackend
 from lerax.policy import AbstractActorCriticPolicy, AbstractPolicyState
 from lerax.policy.q.base_q import AbstractQPolicy
 from lerax.policy.sac.base_sac import AbstractSACPolicy
@@ -226,3 +229,33 @@ class StashCallback(AbstractCallback):
 
     def continue_training(self, ctx, *, key):
         return jnp.array(True)
+
+
+class RecordingBackend(AbstractLoggingBackend):
+    records: list = eqx.field(static=True)
+
+    def __init__(self):
+        self.records = []
+
+    def __hash__(self):
+        return id(self)
+
+    def __eq__(self, other):
+        return self is other
+
+    def open(self, name):
+        pass
+
+    def log_hparams(self, hparams):
+        self.records.append(("hparams", dict(hparams)))
+
+    def log_scalars(self, scalars, step):
+        self.records.append(("scalars", {k: float(np.asarray(v)) for k, v in scalars.items()}, int(np.asarray(step))))
+
+    def log_video(self, tag, frames, step, fps):
+        pass
+
+    def close(self):
+        pass
+
+
